@@ -300,7 +300,10 @@ Record rstate := { s_method : ustr; s_path : ustr; s_qargs : list (ustr * ustr);
 Record rargs := { a_method : option ustr; a_path : option ustr;
                   a_qargs : option (list (ustr * ustr)); a_headers : option (list (ustr * ustr));
                   a_body : option bytes; a_data : option bytes;
-                  a_fargs : option (list (ustr * ustr)) }.
+                  a_fargs : option (list (ustr * ustr));
+                  a_bare : bool }.   (* Client.transmit() with no argument: build() without reinit - the held
+                                        request is resent unchanged (only .headers may have been touched, e.g.
+                                        Last-Event-ID before the resend of an event stream request) *)
 
 Definition reinit (st : rstate) (a : rargs) : rstate :=
   {| s_method := match a_method a with Some m => m | None => s_method st end;
@@ -310,6 +313,13 @@ Definition reinit (st : rstate) (a : rargs) : rstate :=
      s_body := match a_body a with Some b => b | None => [] end;
      s_data := a_data a;
      s_fargs := a_fargs a |}.
+
+Definition apply_args (st : rstate) (a : rargs) : rstate :=
+  if a_bare a then
+    {| s_method := s_method st; s_path := s_path st; s_qargs := s_qargs st;
+       s_headers := match a_headers a with Some h => h | None => s_headers st end;
+       s_body := s_body st; s_data := s_data st; s_fargs := s_fargs st |}
+  else reinit st a.
 
 (* the request the next build() sends: data takes precedence over fargs over body *)
 Definition request_of (st : rstate) : request :=
@@ -334,7 +344,7 @@ Fixpoint history (host : ustr) (port : N) (st : rstate) (ops : list rargs) : lis
   (request_of st, w) ::
   match ops with
   | [] => []
-  | a :: ops' => history host port (reinit st' a) ops'
+  | a :: ops' => history host port (apply_args st' a) ops'
   end.
 
 Definition state_of (r : request) : rstate :=
